@@ -4,6 +4,7 @@ import ACModel.Driver.Carve
 import ACModel.Driver.BaseDisc
 import ACModel.Driver.Chained
 import ACModel.Driver.Select
+import ACModel.Driver.Pipeline
 /-
   acdriver: JSON-lines driver around the executable model and the specification predicates.
   One request per line on stdin, one response per line on stdout.
@@ -23,6 +24,11 @@ def dispatch (j : Json) : R Json := do
   | "quantiles" => DriverBase.quantiles j
   | "ordinal.merge" => DriverBase.ordinalMerge j
   | "kernels" => DriverBase.kernels j
+  | "pipe.cont" => DriverPipe.cont j
+  | "pipe.quant" => DriverPipe.quant j
+  | "pipe.ordinal" => DriverPipe.ordinal j
+  | "pipe.cat" => DriverPipe.cat j
+  | "pipe.string" => DriverPipe.string j
   | "chained.fit" => DriverChained.chainedFit j
   | "select" => DriverSelect.select j
   | "disc.labels" => DriverDisc.labels j
